@@ -6,6 +6,7 @@ import (
 	"os"
 	"path/filepath"
 	"reflect"
+	"strconv"
 	"strings"
 	"sync"
 	"testing"
@@ -51,43 +52,41 @@ func c14Want(c c14Case) (fields []string, conserved string) {
 	if len(c.Args) == 0 {
 		return ref.Split(segs, ifs, set), ref.Conserved(segs, ifs, set)
 	}
-	// cut the word at every "$@"
-	var pieces [][]ref.Seg
+	// cut the word at every field boundary that the positional parameters
+	// bring along: "$@", $@ and $* give one field per parameter (quoted text
+	// in the first form, text that is split further in the other two), the
+	// first joined to what stands in front and the last to what follows;
+	// "$*" is the parameters joined by the first character of IFS, quoted
+	var parts [][]ref.Seg
 	cur := []ref.Seg{}
 	for _, sg := range segs {
-		if !sg.Quoted && sg.Style == `"@` {
-			pieces = append(pieces, cur)
-			cur = []ref.Seg{}
-			continue
-		}
-		cur = append(cur, sg)
-	}
-	pieces = append(pieces, cur)
-	first, last := ref.Seg{Text: c.Args[0], Quoted: true}, ref.Seg{Text: c.Args[len(c.Args)-1], Quoted: true}
-	if len(c.Args) == 1 {
-		var flat []ref.Seg
-		for i, p := range pieces {
-			if i > 0 {
-				flat = append(flat, first)
+		switch {
+		case !sg.Quoted && (sg.Style == `"@` || sg.Style == "@" || sg.Style == "*"):
+			for i, a := range c.Args {
+				if i > 0 {
+					parts = append(parts, cur)
+					cur = []ref.Seg{}
+				}
+				cur = append(cur, ref.Seg{Text: a, Quoted: sg.Style == `"@`})
 			}
-			flat = append(flat, p...)
+		case !sg.Quoted && sg.Style == `"*`:
+			sep := " "
+			if set {
+				sep = ""
+				if ifs != "" {
+					_, n := utf8.DecodeRuneInString(ifs)
+					sep = ifs[:n]
+				}
+			}
+			cur = append(cur, ref.Seg{Text: strings.Join(c.Args, sep), Quoted: true})
+		default:
+			cur = append(cur, sg)
 		}
-		return ref.Split(flat, ifs, set), ref.Conserved(flat, ifs, set)
 	}
-	for i, p := range pieces {
-		part := append([]ref.Seg{}, p...)
-		if i > 0 {
-			part = append([]ref.Seg{last}, part...)
-		}
-		if i < len(pieces)-1 {
-			part = append(part, first)
-		}
-		fields = append(fields, ref.Split(part, ifs, set)...)
-		conserved += ref.Conserved(part, ifs, set)
-		if i < len(pieces)-1 {
-			fields = append(fields, c.Args[1:len(c.Args)-1]...)
-			conserved += strings.Join(c.Args[1:len(c.Args)-1], "")
-		}
+	parts = append(parts, cur)
+	for _, p := range parts {
+		fields = append(fields, ref.Split(p, ifs, set)...)
+		conserved += ref.Conserved(p, ifs, set)
 	}
 	return fields, conserved
 }
@@ -111,6 +110,18 @@ func mkC14(ifs string, set bool, via string) c14Case {
 
 var c14Env = interp.NewExecEnv("sh")
 
+// c14LenVar returns the name of a variable whose length, in decimal, is
+// text ("0": a parameter that is never set).
+func c14LenVar(text string, vars map[string]string) string {
+	n, _ := strconv.Atoi(text)
+	if n == 0 {
+		return "c14_never_set"
+	}
+	name := "len" + text
+	vars[name] = strings.Repeat("é", n)
+	return name
+}
+
 // c14Word builds the word for the case; vars receives the variables the
 // source form refers to.
 func c14Word(c c14Case, vars map[string]string) (ast.Word, string, error) {
@@ -126,6 +137,13 @@ func c14Word(c c14Case, vars map[string]string) (ast.Word, string, error) {
 				w = append(w, &ast.ParamExp{Name: &ast.Lit{Value: "@"}})
 			case !s.Quoted && s.Style == `"@`:
 				w = append(w, &ast.Quote{Tok: `"`, Value: ast.Word{&ast.ParamExp{Name: &ast.Lit{Value: "@"}}}})
+			case !s.Quoted && s.Style == "*":
+				w = append(w, &ast.ParamExp{Name: &ast.Lit{Value: "*"}})
+			case !s.Quoted && s.Style == `"*`:
+				w = append(w, &ast.Quote{Tok: `"`, Value: ast.Word{&ast.ParamExp{Name: &ast.Lit{Value: "*"}}}})
+			case s.Quoted && s.Style == `"#`:
+				// the text is the length of a variable (of a parameter that is not set, if it is 0)
+				w = append(w, &ast.Quote{Tok: `"`, Value: ast.Word{&ast.ParamExp{Braces: true, Name: &ast.Lit{Value: c14LenVar(s.Text, vars)}, Op: "#"}}})
 			case !s.Quoted:
 				w = append(w, &ast.Lit{Value: s.Text})
 			case s.Style == `\` && s.Text != "":
@@ -171,6 +189,12 @@ func c14Word(c c14Case, vars map[string]string) (ast.Word, string, error) {
 			b.WriteString("$@")
 		case !s.Quoted && s.Style == `"@`:
 			b.WriteString(`"$@"`)
+		case !s.Quoted && s.Style == "*":
+			b.WriteString("$*")
+		case !s.Quoted && s.Style == `"*`:
+			b.WriteString(`"$*"`)
+		case s.Quoted && s.Style == `"#`:
+			b.WriteString(`"${#` + c14LenVar(s.Text, vars) + `}"`)
 		case s.Quoted && s.Style == `"-` && s.Text != "" && !strings.ContainsAny(s.Text, "\"$`\\}'") && utf8.ValidString(s.Text):
 			b.WriteString(`"${c14_never_set:-` + s.Text + `}"`)
 		case s.Quoted && s.Style == "'" && !strings.Contains(s.Text, "'") && utf8.ValidString(s.Text):
@@ -632,7 +656,7 @@ func TestC14(t *testing.T) {
 	// assign IFS themselves
 	{
 		pool := []ref.Seg{{Text: "x"}, {Text: " "}, {Text: ","}, {Text: "y", Quoted: true, Style: "'"}, {Text: " z", Quoted: true, Style: `"`}, {Quoted: true, Style: "'"}, {Text: "w,"}}
-		at := ref.Seg{Style: `"@`}
+		ats := []ref.Seg{{Style: `"@`}, {Style: "@"}, {Style: "*"}, {Style: `"*`}}
 		var sides [][]ref.Seg
 		sides = append(sides, nil)
 		for _, a := range pool {
@@ -643,7 +667,7 @@ func TestC14(t *testing.T) {
 		}
 		k := 0
 		var n int64
-		for _, args := range [][]string{{"a b", "c"}, {"", "x"}, {"p", "", ""}, {"q"}, {"", ""}, {"a,b", "c d", "e"}} {
+		for _, args := range [][]string{{"a b", "c"}, {"", "x"}, {"p", "", ""}, {"q"}, {"", ""}, {"a,b", "c d", "e"}, {"a", ""}, {"", "b", ""}} {
 			for _, cfg := range []c14IFS{{false, "", " ", ""}, {true, " ,", " ", ","}, {true, "", "", ""}, {true, ",", "", ","}} {
 				for _, pre := range sides {
 					for _, post := range sides {
@@ -651,25 +675,27 @@ func TestC14(t *testing.T) {
 						if k%nsh != sh {
 							continue
 						}
-						for _, via := range []string{"ast", "parse"} {
-							c := mkC14(cfg.val, cfg.set, via)
-							c.Args = args
-							c.Segs = append(append(append([]ref.Seg{}, pre...), at), post...)
-							if k%5 == 0 {
-								// twice in one word
-								c.Segs = append(append(c.Segs, at), pre...)
+						for ai, at := range ats {
+							for _, via := range []string{"ast", "parse"} {
+								c := mkC14(cfg.val, cfg.set, via)
+								c.Args = args
+								c.Segs = append(append(append([]ref.Seg{}, pre...), at), post...)
+								if k%5 == 0 {
+									// twice in one word (the second time in another spelling)
+									c.Segs = append(append(c.Segs, ats[(ai+k/5)%len(ats)]), pre...)
+								}
+								if err := checkC14(c); err != nil {
+									fail(t, "C14", "split", c, "%v", err)
+								}
+								n++
 							}
-							if err := checkC14(c); err != nil {
-								fail(t, "C14", "split", c, "%v", err)
-							}
-							n++
 						}
 					}
 				}
 			}
 		}
 		st.EvalN(n, n)
-		st.ClassN("dquoted_at_with_parameters_inside_a_word", n)
+		st.ClassN("at_and_star_with_parameters_inside_a_word", n)
 		n = 0
 		for _, val := range []string{":", ",", " ", "x", ": ", "\t,"} {
 			for _, null := range []bool{false, true} {
@@ -697,7 +723,41 @@ func TestC14(t *testing.T) {
 		}
 		st.EvalN(n, n)
 		st.ClassN("word_that_assigns_ifs", n)
-		st.Note("\"$@\" with 1-3 positional parameters (empty ones among them) between 0-2 segments on either side, once or twice in a word, x 4 IFS settings; words that end in ${IFS:=value} with IFS unset or null beforehand (6 values), split with the value they assign; both as AST and as parsed source")
+		// the length of a parameter inside double-quotes is quoted text like
+		// any other, also when IFS holds one of its digits
+		n = 0
+		lsyms := []ref.Seg{{Text: "a"}, {Text: "0"}, {Text: " "}, {Text: "10", Quoted: true, Style: `"#`}, {Text: "0", Quoted: true, Style: `"#`},
+			{Text: "101", Quoted: true, Style: `"#`}, {Text: "1 0", Quoted: true, Style: "'"}, {Text: "1"}}
+		var lrec func(prefix []ref.Seg)
+		lrec = func(prefix []ref.Seg) {
+			k++
+			styled := false
+			for _, sg := range prefix {
+				styled = styled || sg.Style == `"#`
+			}
+			if styled && k%nsh == sh {
+				for _, ifs := range []string{"0", " 0", "1", "01", "1 "} {
+					for _, via := range []string{"ast", "parse"} {
+						c := mkC14(ifs, true, via)
+						c.Segs = append([]ref.Seg{}, prefix...)
+						if err := checkC14(c); err != nil {
+							fail(t, "C14", "split", c, "%v", err)
+						}
+						n++
+					}
+				}
+			}
+			if len(prefix) == 3 {
+				return
+			}
+			for _, sg := range lsyms {
+				lrec(append(append([]ref.Seg{}, prefix...), sg))
+			}
+		}
+		lrec(nil)
+		st.EvalN(n, n)
+		st.ClassN("dquoted_length_with_digits_in_ifs", n)
+		st.Note("\"$@\", $@, $* and \"$*\" with 1-3 positional parameters (empty ones among them, also in last place) between 0-2 segments on either side, once or twice in a word, x 4 IFS settings; words that end in ${IFS:=value} with IFS unset or null beforehand (6 values), split with the value they assign; both as AST and as parsed source")
 	}
 
 	if sh == 0 {
